@@ -1,7 +1,7 @@
 #!/usr/bin/env python3
-"""tools/inventory.py <features|shared|memops> [args…] — source inventories regenerated from /repo on
+"""tools/inventory.py <features|shared|memops|dispatch> [args…] — source inventories regenerated from /repo on
 every run (each feeds a decidable Lean proof obligation): cfg/feature selection groups (C20),
-process-global shared state (C18), raw-memory operations (C16)."""
+process-global shared state (C18), raw-memory operations (C16), backend selection ladders (C03)."""
 import os, sys
 sys.path.insert(0, os.path.dirname(os.path.abspath(__file__)))
 if __name__ == "__main__":
@@ -15,5 +15,8 @@ if __name__ == "__main__":
     if kind == "memops":
         import inventory_memops as m
         sys.exit(m.main(sys.argv[1:]))
+    if kind == "dispatch":
+        import inventory_dispatch as m
+        sys.exit(m.main(sys.argv[2:]))
     print(__doc__)
     sys.exit(2)
